@@ -143,7 +143,7 @@ TSilent ==
      \/ \E p \in Pools :
           \/ PoolStep(p) \/ ProvCloseQ(p)
           \/ StartFirstNone(p) \/ StartFirstGo(p) \/ StartLoop(p) \/ StartRet(p)
-          \/ CheckAllNot(p) \/ RunCancelDo(p) \/ StartCancelDo(p) \/ AwaitExit(p)
+          \/ CheckAllNot(p) \/ CtxProp(p) \/ AwaitExit(p)
           \/ \E i \in Insts : InstSilent(p, i) \/ (~PP(p).closable /\ InstFinish(p, i))
   /\ UNCHANGED <<l, run, aux>>
 
